@@ -80,6 +80,32 @@ Definition leak_of (c : cfg) (st : astate) (nx : N) (o : op) : list N :=
           end
       | None => []
       end
+  | OSplice _ v sb eb pat f rk n (Some j) cl =>
+      (* a replacement value of another type: the values written in front of it are in the storage but never
+         counted - leaked, like the rest of the range and the tail when the splice is refused or forgotten *)
+      match get_a v st with
+      | Some a =>
+          let xs := a_xs a in
+          match range_of_bounds usize_max (N.of_nat (length xs)) (to_sb sb) (to_sb eb) with
+          | Some (s, e) =>
+              match sp_walk xs pat (N.to_nat s) (N.to_nat e) with
+              | Some (_, _, i, j2) =>
+                  let hidden := firstn (j2 - i) (skipn i xs) ++ skipn (N.to_nat e) xs in
+                  match f with
+                  | FinForget => hidden ++ next_ids c nx (N.to_nat n)
+                  | FinDrop =>
+                      let new_len := N.of_nat (N.to_nat s) + n + N.of_nat (length xs - N.to_nat e) in
+                      if (usize_max <? new_len)
+                         || (match acap c (a_bk a) with Some cap => cap <? new_len | None => false end)
+                      then hidden
+                      else firstn (N.to_nat j) (next_ids c nx (N.to_nat n)) ++ skipn (N.to_nat e) xs
+                  end
+              | None => []
+              end
+          | None => []
+          end
+      | None => []
+      end
   | OSplice _ v sb eb pat f rk n wa cl =>
       (* a leaked splice: as a leaked drain, and the replacement values; a splice whose drop is refused
          (result too long): the rest of the range and the tail behind it; a lazily cloning splice whose
@@ -838,10 +864,10 @@ Lemma splice_own st nx v sb eb pat f rk n wa cl r D L :
     (vis (s_st r) ++ (D ++ drops (s_evs r)) ++ (L ++ leak_of c st nx (OSplice Erased v sb eb pat f rk n wa cl))).
 Proof.
   intros Hnx Hr0 Hinv.
-  destruct (sp_splice_inv _ _ _ _ _ _ _ _ _ _ _ _ _ Hr0) as (Hrk & _ & Hr). clear Hr0.
-  assert (Hil : (match rk, wa with RLazy _, None => [] | _, _ => next_ids c nx (N.to_nat n) end) = next_ids c nx (N.to_nat n))
+  destruct (sp_splice_inv _ _ _ _ _ _ _ _ _ _ _ _ _ Hr0) as (Hrk & -> & Hr). clear Hr0.
+  assert (Hil : (match rk, @None N with RLazy _, None => [] | _, _ => next_ids c nx (N.to_nat n) end) = next_ids c nx (N.to_nat n))
     by (destruct Hrk as [-> | ->]; reflexivity).
-  assert (Hgd : (match rk, wa with
+  assert (Hgd : (match rk, @None N with
           | RLazy src, None => match get_a src st with Some b => (0 <? n) && (length (a_xs b) =? 0)%nat | None => false end
           | _, _ => false
           end) = false) by (destruct Hrk as [-> | ->]; reflexivity).
@@ -1017,6 +1043,60 @@ Proof.
     cbn [panic_res s_nx s_st s_evs]. rewrite Hcr2, Hcr. destruct Hfin as [Hd ->].
     pose proof (vis_set_any st' v (Some (with_xs a (firstn s xs ++ firstn wr' ts ++ skipn e xs)))) as H1. cbn [slot_xs with_xs a_xs] in H1.
     rewrite drops_app, Hd. perm_count2.
+Qed.
+
+Lemma splice_wrong_own st nx v sb eb pat f rk n j cl r D L :
+  1 <= nx ->
+  sp_splice_wrong c st nx v sb eb pat f rk n j cl = Some r ->
+  Permutation (created c nx) (vis st ++ D ++ L) ->
+  Permutation (created c (s_nx r))
+    (vis (s_st r) ++ (D ++ drops (s_evs r)) ++ (L ++ leak_of c st nx (OSplice Erased v sb eb pat f rk n (Some j) cl))).
+Proof.
+  intros Hnx Hr0 Hinv. unfold sp_splice_wrong in Hr0.
+  assert (Hr : (if negb (j <? n) || negb (cl =? n) then None else
+                match get_a v st with
+                | None => None
+                | Some a0 => _ end) = Some r) by (destruct rk; [exact Hr0|exact Hr0|discriminate]).
+  clear Hr0. cbn [leak_of].
+  destruct (N.ltb_spec j n) as [Hjn|]; [|discriminate]. cbn [negb orb] in Hr.
+  destruct (N.eqb_spec cl n) as [->|]; [|discriminate]. cbn [negb] in Hr.
+  destruct (get_a v st) as [a|] eqn:Hg; [|discriminate]. cbv zeta in Hr.
+  set (xs := a_xs a) in *.
+  set (ts := next_ids c nx (N.to_nat n)) in *.
+  assert (Hcr : created c (nx + n) = created c nx ++ ts).
+  { replace (nx + n) with (nx + N.of_nat (N.to_nat n)) by lia. apply created_add. exact Hnx. }
+  pose proof (vis_get_any st v) as Hvis. rewrite Hg in Hvis. cbn [slot_xs] in Hvis. fold xs in Hvis.
+  destruct (range_of_bounds usize_max (N.of_nat (length xs)) (to_sb sb) (to_sb eb)) as [[sN eN]|] eqn:Erb.
+  - assert (Hb : sN <= eN /\ eN <= N.of_nat (length xs)).
+    { unfold range_of_bounds in Erb.
+      repeat match type of Erb with
+      | context [match ?x with _ => _ end] => destruct x eqn:?; try discriminate
+      | context [if ?x then _ else _] => destruct x eqn:?; try discriminate
+      end.
+      injection Erb as <- <-. match goal with H : (_ && _)%bool = true |- _ => apply andb_prop in H; destruct H as [H1 H2] end.
+      apply N.leb_le in H1, H2. lia. }
+    set (s := N.to_nat sN) in *. set (e := N.to_nat eN) in *.
+    assert (Hse : (s <= e)%nat) by lia. assert (Hel : (e <= length xs)%nat) by lia.
+    destruct (sp_walk xs pat s e) as [[[[rets ds] i] j2]|] eqn:Ew; [|discriminate].
+    destruct (sp_walk_perm xs pat s e rets ds i j2 Hse Hel Ew) as (Hp & Hb1 & Hb2 & Hb3).
+    assert (Hx : Permutation xs (firstn s xs ++ firstn (e - s) (skipn s xs) ++ skipn e xs)).
+    { rewrite <- (firstn_skipn s xs) at 1. apply Permutation_app_head.
+      rewrite (skipn_split_range xs s e Hse) at 1. reflexivity. }
+    pose proof (vis_set_any st v (Some (with_xs a (firstn s xs)))) as H1. cbn [slot_xs with_xs a_xs] in H1.
+    assert (Hts : Permutation ts (firstn (N.to_nat j) ts ++ skipn (N.to_nat j) ts)) by (rewrite firstn_skipn; reflexivity).
+    destruct f.
+    + destruct (usize_max <? N.of_nat s + n + N.of_nat (length xs - e)) eqn:Eov.
+      * injection Hr as <-. cbn [panic_res s_nx s_st s_evs orb]. rewrite Hcr.
+        rewrite drops_app, drops_yielded, Hdg, drops_map. perm_count.
+      * destruct (match acap c (a_bk a) with Some cap => cap <? N.of_nat s + n + N.of_nat (length xs - e) | None => false end) eqn:Ecap.
+        -- injection Hr as <-. cbn [panic_res s_nx s_st s_evs orb]. rewrite Hcr.
+           rewrite drops_app, drops_yielded, Hdg, drops_map. perm_count.
+        -- injection Hr as <-. cbn [panic_res s_nx s_st s_evs orb]. rewrite Hcr.
+           assert (Hdn : forall l, drops (ENext :: l) = drops l) by reflexivity.
+           rewrite !drops_app, ?Hdn, !drops_app, drops_yielded, Hdg, !drops_map, drops_nexts. perm_count.
+    + injection Hr as <-. cbn [ok_res s_nx s_st s_evs]. rewrite Hcr. rewrite drops_yielded. perm_count.
+  - injection Hr as <-. cbn [panic_res s_nx s_st s_evs]. rewrite Hcr, Hdg, drops_map.
+    destruct f; perm_count.
 Qed.
 
 Lemma new_own st nx dst bk r D L :
@@ -1287,8 +1367,10 @@ Proof.
     { intros rk' wa' H'. destruct (sp_splice c st nx v sb eb pat f rk' n wa' claimed) as [r0|] eqn:Es.
       - injection H' as <-. exact (splice_own st nx v sb eb pat f rk' n wa' claimed r0 D L Hnx Es Hinv).
       - exact (splice_mv_own st nx v sb eb pat f rk' n wa' claimed r D L Hnx Es H' Hinv). }
-    destruct rk as [| |src]; [exact (Hgen RWrap wrong_at Hr)|exact (Hgen RBox wrong_at Hr)|].
-    destruct wrong_at as [wa|]; [exact (Hgen (RLazy src) (Some wa) Hr)|].
+    destruct wrong_at as [wa|].
+    { assert (Hr2 : sp_splice_wrong c st nx v sb eb pat f rk n wa claimed = Some r) by (destruct rk; exact Hr).
+      exact (splice_wrong_own st nx v sb eb pat f rk n wa claimed r D L Hnx Hr2 Hinv). }
+    destruct rk as [| |src]; [exact (Hgen RWrap None Hr)|exact (Hgen RBox None Hr)|].
     exact (splice_lazy_own st nx v sb eb pat f src n claimed r D L Hnx Hr Hinv).
   - (* OClone *)
     unfold sp_clone in Hr. cbn [leak_of]. destruct (Nat.eqb dst v); [discriminate|].
